@@ -1,0 +1,15 @@
+//go:build verif
+
+package utreexo
+
+// VerifHook, when set, is called at the instrumented points of MapPollard
+// (right after a method has taken the forest's lock).  It exists only in
+// builds with the "verif" tag and is used by an external deterministic
+// scheduler to suspend a caller at that point.  It must not call back into m.
+var VerifHook func(m *MapPollard, site string)
+
+func verifPoint(m *MapPollard, site string) {
+	if h := VerifHook; h != nil {
+		h(m, site)
+	}
+}
